@@ -1,12 +1,12 @@
 SPECIFICATION Spec
 CONSTANTS
-  K = 3
+  K = 1
   SrcEnds = {"eof", "err"}
   IniEnds = {"closesend", "cancel"}
-  Faults = {"unkMsg", "unkAck", "tgtSendFail", "srcSendFail", "openFail"}
+  Faults = {}
   Lifetime = TRUE
-  Post = TRUE
-  Syncs = {TRUE, FALSE}
+  Post = FALSE
+  Syncs = {TRUE}
   SrcKinds = {"coop", "silent"}
   RaceHandoff = TRUE
   LatchMsg = TRUE
@@ -15,6 +15,6 @@ CONSTANTS
   CancelOnReturn = TRUE
   FmsgWakesOnLatch = TRUE
   NetCap = 0
-  HandoffTimeout = FALSE
-INVARIANTS InOrder NoUnknownForwarded NoStuck EveryScriptEnds
+  HandoffTimeout = TRUE
+INVARIANTS NoStuck
 CHECK_DEADLOCK FALSE
